@@ -641,6 +641,40 @@ Proof.
   apply kh_unparsable_key_line_skipped; try assumption. apply not_key_is_bad; assumption.
 Qed.
 
+(* ---- several files -------------------------------------------------------------------------------- *)
+
+Lemma kh_entries_app x l1 l2 : kh_entries x (l1 ++ l2) = kh_entries x l1 ++ kh_entries x l2.
+Proof.
+  induction l1 as [|l r IH]; simpl; [reflexivity|].
+  destruct (kh_parse_line x l); rewrite IH; reflexivity.
+Qed.
+
+(* The entry lines of a list of files are those of each file, in order: no line is made of pieces
+   of two files and none is lost, whatever the files end with. *)
+Lemma kh_entries_files x ts : kh_entries x (flat_map splitlines ts) = flat_map (fun t => kh_entries x (splitlines t)) ts.
+Proof.
+  induction ts as [|t r IH]; simpl; [reflexivity|]. rewrite kh_entries_app, IH. reflexivity.
+Qed.
+
+(* One lookup pass over two files returns, for each marker, the union of what the pass returns for
+   each file alone. *)
+Theorem kh_match_files_union x l1 l2 st st1 st2 host addr port r r1 r2 :
+  kh_load_lines x (l1 ++ l2) kh_empty = Some st ->
+  kh_load_lines x l1 kh_empty = Some st1 -> kh_load_lines x l2 kh_empty = Some st2 ->
+  kh_match x st host addr port = Some r ->
+  kh_match x st1 host addr port = Some r1 -> kh_match x st2 host addr port = Some r2 ->
+  forall m k, In k (keys_of m r) <-> In k (keys_of m r1) \/ In k (keys_of m r2).
+Proof.
+  intros Hl Hl1 Hl2 Hm Hm1 Hm2 m k.
+  destruct (kh_match_spec x _ st host addr port r Hl Hm) as (ip & Hip & Hs).
+  destruct (kh_match_spec x _ st1 host addr port r1 Hl1 Hm1) as (ip1 & Hip1 & Hs1).
+  destruct (kh_match_spec x _ st2 host addr port r2 Hl2 Hm2) as (ip2 & Hip2 & Hs2).
+  rewrite Hip in Hip1, Hip2. injection Hip1 as <-. injection Hip2 as <-.
+  rewrite Hs, Hs1, Hs2, kh_entries_app. split.
+  - intros (p & Hin & Hsel). apply in_app_or in Hin as [Hin|Hin]; [left|right]; exists p; auto.
+  - intros [(p & Hin & Hsel)|(p & Hin & Hsel)]; exists p; (split; [apply in_or_app; auto|exact Hsel]).
+Qed.
+
 (* ================================================================================================ *)
 (* Witnesses: behaviours of the faithful model that contradict the documented rules                  *)
 
